@@ -736,6 +736,10 @@ func memberType(kind string) reflect.Type {
 		return reflect.SliceOf(asn.OctetStringType)
 	case "oid":
 		return asn.ObjectIdentifierType
+	case "strplain":
+		return reflect.TypeOf("")
+	case "slicestr":
+		return reflect.SliceOf(reflect.TypeOf(""))
 	}
 	return reflect.TypeOf(int64(0))
 }
